@@ -13,7 +13,10 @@ idx = Index("/repo")
 for prop in sys.argv[1:] or sorted(scopes.ENTRY):
     rep = analyse(prop, "quick", "/repo")
     covered = collections.Counter()
+    GENERIC = {"R-DUPCOND", "R-UNPACK", "R-PUREARGS", "R-INVENTORY", "R-EAGER", "R-FRAME", "R-DEGREE", "R-ORIGINFREE", "R-ATTR"}   # whole-scope engines: "no conflict found", not function-specific logic
     for i in rep.instances:
+        if i["rule"] in GENERIC:
+            continue
         m = _FKEY.search(i["key"])
         if m:
             covered[m.group(0)] += 1
@@ -29,6 +32,6 @@ for prop in sys.argv[1:] or sorted(scopes.ENTRY):
         if covered.get(k, 0) == 0 and not (cls_key and covered.get(cls_key, 0)):
             n = len(list(__import__("ast").walk(f.node)))
             gaps.append((k, n))
-    print("== %s: %d scope functions in anchor files, %d without any instance" % (prop, sum(1 for k in S if any(k.split('::')[0] == a for a in anchors)), len(gaps)))
+    print("== %s: %d scope functions in anchor files, %d without a function-specific rule instance" % (prop, sum(1 for k in S if any(k.split('::')[0] == a for a in anchors)), len(gaps)))
     for k, n in sorted(gaps, key=lambda x: -x[1])[:25]:
         print("     %-90s (%d ast nodes)" % (k, n))
